@@ -70,6 +70,7 @@ Example C15e_nonvacuous_sole_two_byte :
   run 3 [(5, Some h)] = [Forward (mkH [2; 0; 0; 96; 7; 1000; 77; 0] true PROFILE_TWO [(5, [0; 3])])] /\
   marshal_hdr h = [144; 96; 0; 7; 0; 0; 3; 232; 0; 0; 0; 77; 16; 0; 0; 1; 5; 2; 9; 9].
 Proof. split; reflexivity. Qed.
+Print Assumptions C15e_nonvacuous_sole_two_byte.
 
 Example C15e_nonvacuous_first_of_three :
   let h := mkH [2; 0; 0; 96; 7; 1000; 77; 0] true PROFILE_ONE [(5, [9; 9]); (3, [1]); (7, [2; 2; 2])] in
@@ -77,3 +78,4 @@ Example C15e_nonvacuous_first_of_three :
     [Forward (mkH [2; 0; 0; 96; 7; 1000; 77; 0] true PROFILE_ONE [(5, [1; 2]); (3, [1]); (7, [2; 2; 2])])] /\
   order_spec [(5, Some h)] (run 258 [(5, Some h)]) = 0%nat.
 Proof. split; reflexivity. Qed.
+Print Assumptions C15e_nonvacuous_first_of_three.
